@@ -697,7 +697,10 @@ class EQLTranslator:
             )
         if not already_joined:
             onclause = true() if self.or_depth else equality
-            self.sql_query = self.sql_query.join(target_dao, onclause=onclause)
+            # inside an OR another alternative may hold without any row of the joined table
+            self.sql_query = self.sql_query.join(
+                target_dao, onclause=onclause, isouter=bool(self.or_depth)
+            )
             self.join_manager.add_table_join(target_dao)
             self.join_manager.joined_variables[target_dao] = target_leaf
 
@@ -895,7 +898,10 @@ class EQLTranslator:
 
         # Perform the join using the relationship attribute so SQLAlchemy
         # determines the ON clause, while we control aliasing of the right side
-        self.sql_query = self.sql_query.join(aliased_target, relationship_attr)
+        # inside an OR another alternative may hold for a row whose relationship is None: keep it
+        self.sql_query = self.sql_query.join(
+            aliased_target, relationship_attr, isouter=bool(self.or_depth)
+        )
 
         # Record the logical path as joined to avoid duplicates (the unaliased table is not in FROM)
         self.join_manager.add_path_join(dao_class, attribute_name, aliased_target)
